@@ -407,6 +407,11 @@ pub struct BlockSpec {
 
 /// build a block with the real `Block::create` on `builder`, which must store the parent
 pub fn build_block(builder: &Node, keys: &[Key], spec: BlockSpec) -> Result<Block, String> {
+    build_block_with_ticket(builder, keys, spec, None)
+}
+
+/// as `build_block`; `ticket` (when given) replaces the honestly mined golden ticket of a `spec.gt` block
+pub fn build_block_with_ticket(builder: &Node, keys: &[Key], spec: BlockSpec, ticket: Option<(GoldenTicket, usize)>) -> Result<Block, String> {
     let creator = &keys[spec.creator];
     let mut map: AHashMap<SaitoSignature, Transaction> = AHashMap::new();
     for mut tx in spec.txs {
@@ -423,8 +428,10 @@ pub fn build_block(builder: &Node, keys: &[Key], spec: BlockSpec) -> Result<Bloc
         if parent.difficulty > 18 {
             return Err(format!("harness miner: difficulty {} too high", parent.difficulty));
         }
-        let g = mine_gt(parent.hash, parent.difficulty, creator, parent.id);
-        let mut t = gt_tx(g, creator);
+        let mut t = match ticket {
+            Some((g, miner)) => gt_tx(g, &keys[miner]),
+            None => gt_tx(mine_gt(parent.hash, parent.difficulty, creator, parent.id), creator),
+        };
         t.generate(&creator.pk, 0, 0);
         Some(t)
     } else {
